@@ -68,7 +68,8 @@ package model
 //@   mode bv
 //@   props C15
 //@   ensures result != nil && fresh(result) && result.Era == its.Era && result.Lamport == its.Lamport && result.CUID == its.CUID && result.Delimiter == 0
-//@   modifies Timestamp.Era, Timestamp.Lamport, Timestamp.CUID, Timestamp.Delimiter
+//@   fresh
+//@   modifies Timestamp.Era @ result, Timestamp.Lamport @ result, Timestamp.CUID @ result, Timestamp.Delimiter @ result, alloc
 
 //@ func (*Timestamp).GetAndNextDelimiter
 //@   mode bv
